@@ -426,6 +426,68 @@ def cascade {α : Type} (A : HArith α) (inp : Nat → α) (init : α) : Nat →
       | y' + 1 => cascade A inp init k y'
     A.add s (A.mulDt (A.divTau (A.sub src s)))
 
+/-! ### Name resolution in documents with modules (`plugins/makeAbsolute.py`, called from `parse_xmile`)
+
+Every named `<model>` is a module; `makeExpressionAbsolute(model, tree)` walks the tree of an equation and rewrites — IN PLACE —
+every identifier without a separator to `<sanitized model>.<name>` (the root model, whose name is empty, keeps bare names). -/
+
+def isQual (s : String) : Bool := s.toList.contains '.'
+
+/-- `m` = the sanitized model name (`""` for the root model) -/
+def resolveName (m s : String) : String := if isQual s || m = "" then s else m ++ "." ++ s
+
+mutual
+def makeAbs (m : String) : X → X
+  | .id s => .id (resolveName m s)
+  | .paren e => .paren (makeAbs m e)
+  | .neg e => .neg (makeAbs m e)
+  | .notp e => .notp (makeAbs m e)
+  | .bin k l r => .bin k (makeAbs m l) (makeAbs m r)
+  | .ite cnd a b => .ite (makeAbs m cnd) (makeAbs m a) (makeAbs m b)
+  | .call f args => .call f (makeAbsL m args)
+  | e => e
+def makeAbsL (m : String) : List X → List X
+  | [] => []
+  | e :: es => makeAbs m e :: makeAbsL m es
+end
+
+mutual
+/-- identifiers of a tree, in order of occurrence -/
+def ids : X → List String
+  | .id s => [s]
+  | .paren e => ids e
+  | .neg e => ids e
+  | .notp e => ids e
+  | .bin _ l r => ids l ++ ids r
+  | .ite cnd a b => ids cnd ++ (ids a ++ ids b)
+  | .call _ args => idsL args
+  | _ => []
+def idsL : List X → List String
+  | [] => []
+  | e :: es => ids e ++ idsL es
+end
+
+/-- one equation of a document: the (sanitized) name of its model, the heap cell that holds its tree object (what
+`visitor.visit(grammar.parse(text))` returned to it), and the tree that parsing its text yields -/
+structure Eqn where
+  model : String
+  cell : Nat
+  tree : X
+
+/-- `parse_xmile` visits the equations in document order; each visit absolutises the tree object found in the equation's cell
+in place (a cell that was filled by an earlier equation — a shared tree — is absolutised again, on top of the first prefix) -/
+def absStep (st : Nat → Option X) (e : Eqn) : Nat → Option X :=
+  fun i => if i = e.cell then some (makeAbs e.model ((st i).getD e.tree)) else st i
+
+def absAll (es : List Eqn) : Nat → Option X := es.foldl absStep (fun _ => none)
+
+def distinctNats : List Nat → Bool
+  | [] => true
+  | n :: ns => !ns.contains n && distinctNats ns
+
+/-- every equation owns its tree: no two equations hold the same tree object -/
+def ownedOK (es : List Eqn) : Bool := distinctNats (es.map (·.cell))
+
 /-! ### S-expression of an XMILE tree (for comparison with the harness's own parser) -/
 
 def xopName : XOp → String
